@@ -18,6 +18,8 @@ Translated (anything outside the grammar raises TranslateError):
   * _NearestInterpolator._evaluate:  idx_res.append(np.where(yi < .5, i, i + 1))
   * the factories: which evaluator class nearest_/linear_/per_axis_interpolator instantiate, the
     all(s == 'nearest' ...) dispatch of per_axis_interp, interp=['linear'] * d of _LinearInterpolator
+  * odl/util/vectorization.py: is_valid_input_array, out_shape_from_array; _check_interp_input (array
+    branch): how inputs of each shape are reshaped / classified as a single point / rejected
   * _Interpolator.__call__: the ordered `out` checks (not an array -> TypeError, wrong shape /
     dtype -> ValueError)
 """
@@ -413,6 +415,127 @@ def out_checks(fn):
             % '\n'.join(lines))
 
 
+# ---------------------------------------------------------------- input conventions
+VSRC = 'odl/util/vectorization.py'
+
+
+def shape_atom(n, xname, extra):
+    """Integer-valued atoms of the shape tests."""
+    u = txt(n)
+    table = {xname + '.ndim': 'length xshape', xname + '.size': 'prodn xshape',
+             xname + '.shape[0]': 'nth 0%nat xshape 0%nat', xname + '.shape[1]': 'nth 1%nat xshape 0%nat'}
+    table.update(extra)
+    if u in table:
+        return '(%s)' % table[u]
+    if isinstance(n, ast.Constant) and isinstance(n.value, int) and not isinstance(n.value, bool) and n.value >= 0:
+        return '%d%%nat' % n.value
+    fail(n, 'integer atom outside grammar')
+
+
+def shape_tuple(n, xname, extra):
+    """A literal shape: () or (a,) or (a, b)"""
+    if not isinstance(n, ast.Tuple):
+        fail(n, 'expected a tuple')
+    return '[%s]' % '; '.join(shape_atom(e, xname, extra) for e in n.elts)
+
+
+def shape_test(n, xname, extra):
+    """Boolean tests on shapes: and / or of comparisons (==, >) between integer atoms or x.shape == tuple."""
+    if isinstance(n, ast.BoolOp):
+        op = ' && ' if isinstance(n.op, ast.And) else ' || '
+        return '(%s)' % op.join(shape_test(v, xname, extra) for v in n.values)
+    if isinstance(n, ast.Compare) and len(n.ops) == 1:
+        l, r, op = n.left, n.comparators[0], n.ops[0]
+        if txt(l) == 'ndim' and isinstance(op, ast.Is) and txt(r) == 'None':
+            return 'false'                        # ndim is always given by the callers modelled here
+        if txt(l) == xname + '.shape' and isinstance(op, ast.Eq):
+            return '(nats_eqb xshape %s)' % shape_tuple(r, xname, extra)
+        a, b = shape_atom(l, xname, extra), shape_atom(r, xname, extra)
+        if isinstance(op, ast.Eq):
+            return '(%s =? %s)%%nat' % (a, b)
+        if isinstance(op, ast.Gt):
+            return '(%s <? %s)%%nat' % (b, a)
+    fail(n, 'shape test outside grammar')
+
+
+def valid_input_array(vtop):
+    fn = vtop.get('is_valid_input_array')
+    if fn is None or [a.arg for a in fn.args.args] != ['x', 'ndim']:
+        fail(fn, 'is_valid_input_array(x, ndim) not found')
+    body = [s for s in fn.body if not (isinstance(s, ast.Expr) and isinstance(s.value, ast.Constant))]
+    if len(body) != 2 or txt(body[0]) != 'try:\nx=np.asarrayx\nexceptValueError:\nreturnFalse' or not isinstance(body[1], ast.If):
+        fail(fn, 'unexpected body of is_valid_input_array')
+    node = body[1]
+    if not (len(node.body) == 1 and isinstance(node.body[0], ast.Return) and len(node.orelse) == 1
+            and isinstance(node.orelse[0], ast.Return)):
+        fail(node, 'expected if T: return E else: return E')
+    ex = {'ndim': 'ndim'}
+    return ('Definition gen_is_valid_input_array (xshape : list nat) (ndim : nat) : bool :=\n'
+            '  if %s then %s else %s.\n'
+            % (shape_test(node.test, 'x', ex), shape_test(node.body[0].value, 'x', ex),
+               shape_test(node.orelse[0].value, 'x', ex)))
+
+
+def out_shape_from_array(vtop):
+    fn = vtop.get('out_shape_from_array')
+    body = [s for s in fn.body if not (isinstance(s, ast.Expr) and isinstance(s.value, ast.Constant))] if fn else []
+    if len(body) != 2 or txt(body[0]) != 'arr=np.asarrayarr' or not isinstance(body[1], ast.If):
+        fail(fn, 'unexpected body of out_shape_from_array')
+    node = body[1]
+    if not (txt(node.body[0]) == 'returnarr.shape' and len(node.orelse) == 1 and isinstance(node.orelse[0], ast.Return)):
+        fail(node, 'unexpected branches of out_shape_from_array')
+    return ('Definition gen_out_shape_from_array (xshape : list nat) : list nat :=\n  if %s then xshape else %s.\n'
+            % (shape_test(node.test, 'arr', {}), shape_tuple(node.orelse[0].value, 'arr', {})))
+
+
+def check_interp_input(top):
+    """The array branch of _check_interp_input: how a non-meshgrid input is reshaped, whether it denotes a
+    single point, and when it is rejected."""
+    fn = top.get('_check_interp_input')
+    if fn is None:
+        fail(None, '_check_interp_input not found')
+    ifs = [s for s in fn.body if isinstance(s, ast.If)]
+    if len(ifs) != 1 or txt(ifs[0].test) != 'is_valid_input_meshgridx,f.ndim':
+        fail(fn, 'expected if is_valid_input_meshgrid(x, f.ndim): ... else: ...')
+    if [txt(s) for s in ifs[0].body] != ['x_is_scalar=False', "x_type='meshgrid'"]:
+        fail(ifs[0], 'unexpected meshgrid branch')
+    els = ifs[0].orelse
+    if len(els) != 4 or txt(els[0]) != 'x=np.asarrayx' or not isinstance(els[1], ast.If) or \
+            txt(els[3]) != "x_type='array'" or not isinstance(els[2], ast.If):
+        fail(ifs[0], 'unexpected array branch')
+    if not (txt(els[2].test) == 'notis_valid_input_arrayx,f.ndim' and isinstance(els[2].body[-1], ast.Raise)
+            and txt(els[2].body[-1].exc) in ('ValueErrorerrmsg',) and not els[2].orelse):
+        fail(els[2], 'expected `if not is_valid_input_array(x, f.ndim): ... raise ValueError(errmsg)`')
+    ex = {'f.ndim': 'fndim'}
+    node, arms = els[1], []
+    while True:
+        def arm(body):
+            d = {}
+            for st in body:
+                u = txt(st)
+                if u in ('x_is_scalar=True', 'x_is_scalar=False'):
+                    d['scalar'] = 'true' if u.endswith('True') else 'false'
+                elif (isinstance(st, ast.Assign) and txt(st.targets[0]) == 'x' and isinstance(st.value, ast.Call)
+                      and txt(st.value.func) == 'x.reshape' and len(st.value.args) == 1):
+                    d['shape'] = shape_tuple(st.value.args[0], 'x', ex)
+                else:
+                    fail(st, 'statement outside grammar in _check_interp_input')
+            if 'scalar' not in d:
+                fail(body[0], 'x_is_scalar not set')
+            return '(%s, %s)' % (d.get('shape', 'xshape'), d['scalar'])
+        arms.append((shape_test(node.test, 'x', ex), arm(node.body)))
+        if len(node.orelse) == 1 and isinstance(node.orelse[0], ast.If):
+            node = node.orelse[0]
+        else:
+            last = arm(node.orelse)
+            break
+    chain = ''.join('    if %s then %s else\n' % a for a in arms) + '    %s' % last
+    return ('(* None = ValueError; Some (shape after reshaping, input denotes a single point) *)\n'
+            'Definition gen_check_array_input (fndim : nat) (xshape : list nat) : option (list nat * bool) :=\n'
+            '  let r :=\n%s in\n'
+            '  if negb (gen_is_valid_input_array (fst r) fndim) then None else Some r.\n' % chain)
+
+
 def translate():
     path = os.path.join(REPO, SRC)
     tree = ast.parse(open(path).read())
@@ -434,6 +557,7 @@ def translate():
     out = ['(* GENERATED by translate/interp_weights.py from %s -- do not edit *)' % SRC,
            'From Coq Require Import ZArith QArith List Bool.',
            'From Verif Require Import Base.Num C15.Syntax.',
+           'Import ListNotations.',
            'Local Open Scope num_scope.', '']
     for py, cq in names.items():
         out.append(weights_fn(top[py], cq))
@@ -456,4 +580,10 @@ def translate():
     out.append('(* linear_interpolator = per-axis evaluation with this scheme on every axis *)\n'
                'Definition gen_linear_scheme : scheme := %s.\n' % linear_schemes(top))
     out.append(out_checks(method('_Interpolator', '__call__')))
+    # input conventions (odl/util/vectorization.py + _check_interp_input)
+    vtree = ast.parse(open(os.path.join(REPO, VSRC)).read())
+    vtop = {n.name: n for n in vtree.body if isinstance(n, ast.FunctionDef)}
+    out.append(valid_input_array(vtop))
+    out.append(out_shape_from_array(vtop))
+    out.append(check_interp_input(top))
     return '\n'.join(out)
